@@ -150,6 +150,7 @@ func checkC14(r *Run) {
 		r.Ok("unbound-reads-nil", "release helper and its callers: the released entry is cleared (Ent = nil) before the fid lock is dropped, on every path", token.NoPos, fmt.Sprintf("%d release events interpreted", tsOwn.releaseSites))
 	}
 	r.Floor("unbound-reads-nil", tsOwn.releaseSites, 3, "release events interpreted")
+	publishLocked(r, fns, "publish-locked")
 	// E7a obligations
 	akeys := []string{}
 	for k := range ts.acc {
@@ -185,4 +186,57 @@ func checkC14(r *Run) {
 	r.Floor("summaries", nReq, 3, "requires-held helpers (link, delRefAction, openLocked)")
 	r.Floor("summaries", nAcq, 10, "functions that block on a shared fid lock")
 	r.Exhaustive = true
+}
+
+// publishLocked: an SFid is locked by its creator before it becomes reachable through the fid table. A placeholder
+// that is visible but unlocked can be taken by a concurrent clunk/remove (which finds Ent == nil and reports
+// success) before the reserving Attach/Walk binds its entry: both operations succeed — no sequential order does that.
+func publishLocked(r *Run, fns []*ssa.Function, rule string) {
+	n := 0
+	for _, fn := range fns {
+		for _, c := range findCalls(fn, "(*sync.Map).LoadOrStore", "(*sync.Map).Store", "(*sync.Map).Swap") {
+			if len(c.Call.Args) < 3 {
+				continue
+			}
+			if fa, ok := c.Call.Args[0].(*ssa.FieldAddr); !ok || fieldName(fa.X.Type(), fa.Field) != "refs" {
+				continue
+			}
+			n++
+			obj := stripConv(c.Call.Args[2])
+			locked := false
+			eachInstr(fn, func(in ssa.Instruction) {
+				lc, ok := in.(*ssa.Call)
+				if !ok || calleeName(&lc.Call) != "(*sync.Mutex).Lock" || len(lc.Call.Args) == 0 {
+					return
+				}
+				recv := lc.Call.Args[0]
+				if f, ok := recv.(*ssa.FieldAddr); ok {
+					recv = f.X
+				}
+				if recv == obj && instrDominates(lc, c) {
+					// and not unlocked again in between
+					unlocked := false
+					eachInstr(fn, func(in2 ssa.Instruction) {
+						uc, ok := in2.(*ssa.Call)
+						if !ok || calleeName(&uc.Call) != "(*sync.Mutex).Unlock" || len(uc.Call.Args) == 0 {
+							return
+						}
+						ur := uc.Call.Args[0]
+						if f, ok := ur.(*ssa.FieldAddr); ok {
+							ur = f.X
+						}
+						if ur == obj && instrDominates(lc, uc) && instrDominates(uc, c) {
+							unlocked = true
+						}
+					})
+					if !unlocked {
+						locked = true
+					}
+				}
+			})
+			r.Check(locked, rule, fnName(fn)+": the SFid is locked before it is published in the fid table", c.Pos(),
+				"the new fid becomes visible in the table before its creator holds its lock: a concurrent clunk/remove can take the placeholder while the reserving operation is still going to bind an entry to it (both succeed, the entry is never released)")
+		}
+	}
+	r.Floor(rule, n, 1, "publications into the fid table")
 }
